@@ -254,6 +254,22 @@ theorem sim_desg {f : Nat} (ih : Sim f) : DesgSt (f+1) := by
       exact h'
 
 
+/-- a string literal for the character array at `p` (p14): the parser's `string_initializer` against the specification's item -/
+theorem sim_init2_str {root : Ty} {top : Bool} {obj : Init} {p : List Nat} {elem : Ty} {len : Nat} {c : Init} {id : Nat}
+    {bytes : List Nat} {esz : Nat} {r : List ITok} {c' : Init} {toks' : List ITok}
+    (hA : At root top obj p (.array elem len) c) (hint : elem.isInteger = true)
+    (h : stringInitializer elem bytes esz r c = .ok (c', toks')) :
+    shaped (.array elem len) c' = true ∧
+      ∀ g fl, ∃ g', Imp (initItem g root top obj [p] (.str id bytes esz :: r) fl) (After root top obj p c' toks' fl g') := by
+  obtain ⟨cs, rfl, hlen, hall⟩ := arr_of_shaped hA.shapedc
+  obtain ⟨hs', htoks, hsz⟩ := stringInitializer_shape hlen hall hint h
+  subst htoks
+  refine ⟨hs', init2_stop hA (by simp) (by simp [stopsAt, strFits, hint, hsz]) (fun hne => ?_)⟩
+  have hz := hne rfl (by intro sz k hh; cases hh)
+  obtain ⟨_, _, hsv, _⟩ := stringInitializer_spec hA.shapedc hz hint h
+  simp only [storeTok, growable_false hA, Bool.false_eq_true, ↓reduceIte]
+  exact hsv
+
 theorem sim_init2 {f : Nat} (ih : Sim f) : Init2St (f+1) := by
   intro root top obj p ty c toks c' toks' hA h
   cases ty with
@@ -321,13 +337,23 @@ theorem sim_init2 {f : Nat} (ih : Sim f) : Init2St (f+1) := by
         simp [hint]
     · -- braces
       rename_i inner
-      obtain ⟨hs', inner', heq, himp⟩ := ih.arr1 hA.ok hA.shapedc h
-      cases heq
-      refine ⟨hs', init2_brace hA (fun _ top g fl res hres hcl => ?_)⟩
-      have := himp top g fl res hres hcl
-      cases this
-      rw [unflex_shaped hs']
-      exact ⟨rfl, rfl, rfl⟩
+      split at h
+      · -- p14/p15: a string literal in braces: the literal alone
+        rename_i id bytes esz rest hbs
+        obtain ⟨_, _, _, hi, _⟩ := bracedStr_some hbs
+        have hbl := bracedLit_of_bracedStr (t := .array elem len) rfl hbs
+        obtain ⟨hs', himp⟩ := sim_init2_str (id := id) hA (isIntNotBool_isInteger hi) h
+        refine ⟨hs', fun g fl => ?_⟩
+        rw [initItem_bracedLit _ _ _ _ _ _ _ _ hA.sub hA.ng hbl]
+        exact himp g fl
+      · rename_i hbs
+        obtain ⟨hs', inner', heq, himp⟩ := ih.arr1 hA.ok hA.shapedc h
+        cases heq
+        refine ⟨hs', init2_brace hA (bracedLit_none_of_bracedStr rfl hbs) (fun _ top g fl res hres hcl => ?_)⟩
+        have := himp top g fl res hres hcl
+        cases this
+        rw [unflex_shaped hs']
+        exact ⟨rfl, rfl, rfl⟩
     · -- elided
       rename_i hn1 hn2
       refine ih.arr20 hA (fun tok r' heq => ?_) h
@@ -342,7 +368,7 @@ theorem sim_init2 {f : Nat} (ih : Sim f) : Init2St (f+1) := by
     · rename_i hsb
       obtain ⟨hs', inner, heq, himp⟩ := ih.struct1 hA.ok hA.shapedc h
       subst heq
-      refine ⟨hs', init2_brace hA (fun hne top g fl res hres hcl => ?_)⟩
+      refine ⟨hs', init2_brace hA (bracedLit_non_array _ rfl) (fun hne top g fl res hres hcl => ?_)⟩
       have hE : hasAggExpr (Init.struct e cs) = false := by
         simp only [hasExpr, Bool.or_eq_false_iff] at hne
         cases e <;> simp_all [hasAggExpr]
@@ -378,7 +404,7 @@ theorem sim_init2 {f : Nat} (ih : Sim f) : Init2St (f+1) := by
       | cons t inner =>
         cases t <;> simp [startsBrace] at hsb
         obtain ⟨hs', himp⟩ := ih.union1 hA.ok hA.shapedc h
-        refine ⟨hs', init2_brace hA (fun hne top g fl res hres hcl => ?_)⟩
+        refine ⟨hs', init2_brace hA (bracedLit_non_array _ rfl) (fun hne top g fl res hres hcl => ?_)⟩
         have hz := zero_of_shaped _ _ hA.ok hA.shapedc hne
         obtain ⟨h1, h2, h3⟩ := himp hz top g fl res hres hcl
         have hus : unflex res.obj = res.obj := by
@@ -418,7 +444,7 @@ theorem sim_init2 {f : Nat} (ih : Sim f) : Init2St (f+1) := by
       have hend := strip_comma_rbrace hrb
       have hAr : ∀ top, At (.scalar sz k) top (.leaf e) [] (.scalar sz k) (.leaf e) := fun _ => At.root hA.ok hA.shapedc
       obtain ⟨hs', _⟩ := ih.init2 (top := false) (hAr false) hinit
-      refine ⟨hs', init2_brace hA (fun hne top g fl res hres hcl => ?_)⟩
+      refine ⟨hs', init2_brace hA (bracedLit_non_array _ rfl) (fun hne top g fl res hres hcl => ?_)⟩
       obtain ⟨_, himp⟩ := ih.init2 (top := top) (hAr top) hinit
       have fin : ∀ g1 cur first, initList g1 (.scalar sz k) top c1 cur tok first fl = .ok res →
           defaultMember (.scalar sz k) (unflex res.obj) = c1 ∧ res.rest = toks' ∧ res.fl = fl := by
@@ -486,10 +512,10 @@ theorem sim_all : ∀ f, Sim f
 
 /-- a brace-enclosed initializer for an object of type `t`: `initializer2` with the node `c` against the list of the specification -/
 theorem braceSim_init2 {f : Nat} {t : Ty} {c : Init} {inner : List ITok} {c' : Init} {rest : List ITok} (ho : subOk t = true)
-    (hs : shaped t c = true) (h : initializer2 f t (.lbrace :: inner) c = .ok (c', rest)) :
+    (hs : shaped t c = true) (hbl : bracedLit t inner = none) (h : initializer2 f t (.lbrace :: inner) c = .ok (c', rest)) :
     shaped t c' = true ∧ (hasExpr c = false → BraceSim t c inner c' rest) := by
   cases f with
   | zero => cases h
-  | succ f => exact braceSim_step (sim_all f) ho hs h
+  | succ f => exact braceSim_step (sim_all f) ho hs hbl h
 
 end ChibiVerif.InitSpec
